@@ -12,17 +12,26 @@ def _core_sections(fn):
     """Group the slot stores  core[a, :, b] = value  by the preceding
     ``core = ...`` assignment (first core, loop body, last core)."""
     sections = []
+    # the core variable = the array that receives slot stores  X[c, :, c]
+    bases = [n.targets[0].value.id for n in ast.walk(fn.node)
+             if isinstance(n, ast.Assign) and
+             isinstance(n.targets[0], ast.Subscript) and
+             isinstance(n.targets[0].value, ast.Name) and
+             isinstance(n.targets[0].slice, ast.Tuple) and
+             len(n.targets[0].slice.elts) == 3 and
+             isinstance(n.targets[0].slice.elts[1], ast.Slice)]
+    core = max(set(bases), key=bases.count) if bases else None
 
     def walk(stmts):
         for st in stmts:
             if isinstance(st, ast.Assign) and \
                     isinstance(st.targets[0], ast.Name) and \
-                    st.targets[0].id == 'core':
+                    st.targets[0].id == core:
                 sections.append({'init': st, 'stores': []})
             elif isinstance(st, ast.Assign) and \
                     isinstance(st.targets[0], ast.Subscript) and \
                     isinstance(st.targets[0].value, ast.Name) and \
-                    st.targets[0].value.id == 'core' and sections:
+                    st.targets[0].value.id == core and sections:
                 sl = st.targets[0].slice
                 if isinstance(sl, ast.Tuple) and len(sl.elts) == 3 and \
                         isinstance(sl.elts[0], ast.Constant) and \
@@ -32,7 +41,7 @@ def _core_sections(fn):
                         (sl.elts[0].value, sl.elts[2].value, st.value, st))
             elif isinstance(st, ast.For):
                 walk(st.body)
-    walk(fn.node.body)
+    walk(paths.linear(fn.node.body))
     return sections
 
 
@@ -222,18 +231,43 @@ def check(an, rep, tier):
         if isinstance(node, ast.Assign) and \
                 isinstance(node.value, ast.BinOp) and \
                 isinstance(node.value.op, ast.Sub):
-            txt = paths.src(mod, node.value).replace(' ', '')
-            if txt.startswith('np.mean(y_trn[idx])') and \
-                    txt.endswith('-self.f0'):
-                ok = True
+            l_, r_ = node.value.left, node.value.right
+            ipar, ypar = fn.params[1], fn.params[2]      # (self, I_trn, y_trn)
+            is_f0 = isinstance(r_, ast.Attribute) and r_.attr == 'f0' and \
+                isinstance(r_.value, ast.Name) and r_.value.id == 'self'
+            is_cmean = isinstance(l_, ast.Call) and \
+                (prog.dotted(l_.func) or '').endswith('mean') and \
+                len(l_.args) == 1 and \
+                isinstance(l_.args[0], ast.Subscript) and \
+                isinstance(l_.args[0].value, ast.Name) and \
+                l_.args[0].value.id == ypar and \
+                isinstance(l_.args[0].slice, ast.Name)
+            if is_f0 and is_cmean:
+                mname = l_.args[0].slice.id
+                # the mask selects the samples whose k-th index equals x
+                for n2 in ast.walk(fn.node):
+                    if isinstance(n2, ast.Assign) and \
+                            isinstance(n2.targets[0], ast.Name) and \
+                            n2.targets[0].id == mname and \
+                            isinstance(n2.value, ast.Compare) and \
+                            len(n2.value.ops) == 1 and \
+                            isinstance(n2.value.ops[0], ast.Eq) and \
+                            any(isinstance(x, ast.Name) and x.id == ipar
+                                for x in ast.walk(n2.value)):
+                        ok = True
     rep.add('P-order', 'anova.ANOVA.build_1', 'value = mean(y_trn[mask]) - f0',
             'ok' if ok else 'violation',
             '' if ok else 'the first-order term is no longer "conditional '
             'mean minus the constant"')
     fn = prog.func('anova.ANOVA.build_0')
     ok = any(isinstance(n, ast.Assign) and
-             paths.src(fn.module, n).replace(' ', '') ==
-             'self.f0=np.mean(y_trn)' for n in ast.walk(fn.node))
+             isinstance(n.targets[0], ast.Attribute) and
+             n.targets[0].attr == 'f0' and
+             isinstance(n.value, ast.Call) and
+             (prog.dotted(n.value.func) or '').endswith('mean') and
+             len(n.value.args) == 1 and not n.value.keywords and
+             isinstance(n.value.args[0], ast.Name) and
+             n.value.args[0].id == fn.params[2] for n in ast.walk(fn.node))
     rep.add('P-order', 'anova.ANOVA.build_0', 'f0 = mean(y_trn)',
             'ok' if ok else 'violation',
             '' if ok else 'the constant term is no longer the sample mean')
